@@ -328,9 +328,47 @@ def evaluate(ctx, hs, impl, sweep, limit, name):
 
 # ---------------------------------------------------------------- run
 
-def run_impl(ctx, info, hs, sizes, tag=""):
-    out, log = common.run_harness(ctx, info["harness"], "perio", {"histories": hs, "sweep": sizes}, tag=tag)
+def run_impl(ctx, info, hs, tag=""):
+    out, log = common.run_harness(ctx, info["harness"], "perio", {"histories": hs}, tag=tag)
     return out, log
+
+
+def run_sweep(ctx, info, sizes):
+    """the REAL Gtp5g.queryMultiURR over the simulated netlink endpoint (mode gtp5g_multiurr of the SimKernel overlay)"""
+    rnd = random.Random(ctx.seed * 7919 + 1)
+    cases, metas = [], []
+    for total in sizes:
+        nse = rnd.randint(1, 4) if total > 0 else rnd.randint(0, 1)
+        seids = rnd.sample([1, 2, 3, 5, 2**32 + 1, 2**63 + 5], nse) if nse else []
+        regs = {str(x): [] for x in seids}
+        for i in range(total):
+            x = seids[rnd.randrange(len(seids))] if i >= len(seids) else seids[i]
+            regs[str(x)].append(len(regs[str(x)]) + 1)
+        regs = {k: v for k, v in regs.items() if v} if rnd.random() < 0.8 else regs
+        reports = [{"urrid": u, "seid": int(x), "trigger": 0, "seqn": 0, "vol_mask": 1, "tot_vol": (int(x) % 1000) * 1000 + u}
+                   for x, us in regs.items() for u in us]
+        cases.append({"regs": regs, "ps": True, "reports": reports})
+        metas.append(total)
+    out, log = common.run_harness(ctx, info["harness"], "gtp5g_multiurr", cases, tag="-sweep")
+    if out is None:
+        return None, log
+    res = []
+    for total, c, o in zip(metas, cases, out):
+        q = sorted((int(x), sorted(us)) for x, us in c["regs"].items())
+        r = {"total": total, "query": [[x, us] for x, us in q], "err": o["err"],
+             "requests": [[[d["seid"], d["id"]] for d in req] for req in o["oids"]],
+             "conns": o["conns"], "urr_num": o["urr_num"],
+             "result": sorted([int(x), sorted(rep["urrid"] for rep in reps)] for x, reps in o["result"].items()),
+             "result_payload_ok": all(rep["tot_vol"] == (int(x) % 1000) * 1000 + rep["urrid"] for x, reps in o["result"].items() for rep in reps)}
+        if not r["err"]:
+            if any(c != "ps" for c in r["conns"]):
+                r["err"] = "request not on the periodic server's own netlink client: %s" % r["conns"]
+            elif r["urr_num"] != [len(x) for x in r["requests"]]:
+                r["err"] = "URR_NUM attribute %s differs from the number of ids in the request" % r["urr_num"]
+            elif not r["result_payload_ok"]:
+                r["err"] = "a report came back under the wrong SEID/URR"
+        res.append(r)
+    return res, log
 
 
 def state_changing(evs):
@@ -359,19 +397,18 @@ def run(ctx, replay=None):
         ctx.violation({"property": "C15", "broken": "correspondence harness no longer builds against the tree", "log": info["tie_broken"]},
                       no_input=True)
         return ctx.finish(coverage, [])
-    sizes = sweep_sizes(ctx, 56)
-    impl, log = run_impl(ctx, info, hs, sizes)
+    impl, log = run_impl(ctx, info, hs)
     if impl is None:
         ctx.violation({"property": "C15", "broken": "harness run failed", "log": log[-2000:]}, no_input=True)
         return ctx.finish(coverage, [])
     limit = impl["limit"]
-    if limit != 56:
-        sizes = sweep_sizes(ctx, limit)
-        impl2, _ = run_impl(ctx, info, [], sizes, tag="-sweep")
-        if impl2 is not None:
-            impl["sweep"] = impl2["sweep"]
+    sizes = sweep_sizes(ctx, limit)
+    sweep, slog = run_sweep(ctx, info, sizes)
+    sweep_note = ""
+    if sweep is None:
+        sweep_note = "mode gtp5g_multiurr (SimKernel overlay) not available: " + slog[-300:]
+        sweep = []
     obs = impl["histories"]
-    sweep = impl["sweep"]
     # harness-level anomalies are observations too
     anomalies = []
     for hi, (evs, os_) in enumerate(zip(hs, obs)):
@@ -414,7 +451,7 @@ def run(ctx, replay=None):
                         "Sweep: real queryMultiURR over the simulated endpoint with total registration counts %s" % sizes)
     coverage["batch_limit"] = limit
     coverage["batch_sweep_sizes"] = [s["total"] for s in sweep]
-    coverage["batch_sweep_note"] = impl.get("sweep_note", "")
+    coverage["batch_sweep_note"] = sweep_note
     coverage["samples"] = [{"events": h[:6], "impl": o[:6]} for h, o in list(zip(hs, obs))[3:5]]
     coverage["model_impl_mismatches"] = len(res["mism"]) + len(res["swmism"])
     coverage["monitor_failures"] = len(res["monf"]) + len(res["swmonf"]) + len(anomalies) + len(sw_err)
